@@ -603,12 +603,64 @@ def rule_mask_policy(ctx):
     ctx.ob("prepareMessage: prepared frames are masked iff the factory is a client", len(am) == 1 and norm.text(am[0].value) == "not self.isServer", "changed", pm.loc())
     pi = ctx.program.func("autobahn.websocket.protocol.PreparedMessage.__init__")
     ctx.analysed(pi)
-    g, mf, res = an.get(pi)
-    mk = [(n, c) for n in g.stmt_nodes() for c in node_calls(n) if call_name(c) == "create_xor_masker"]
-    ok = len(mk) == 1 and [norm.text(a) for a in mk[0][1].args] == ["mask", "l"] and ("truth", "applyMask", None, True) in mf.at(mk[0][0])
-    b1 = [n for n in g.stmt_nodes() if n.kind == "stmt" and isinstance(n.ast, ast.Assign) and norm.text(n.ast.targets[0]) == "b1"]
-    okb = len(b1) == 2 and all((norm.key(n.ast.value, res) == ("c", 128)) == (norm.is_truthy_known(mf.at(n), "applyMask") is True) for n in b1)
-    ctx.ob("PreparedMessage: mask bit, key and masked payload iff applyMask", ok and okb, "changed", pi.loc())
+    # evaluated (sa.core.tiny) over (applyMask, payload length 0 / 5 / 200): what is assembled is header0, header1 with the mask bit iff applyMask,
+    # the extended length, a key of 4 octets drawn for this message iff applyMask, and the payload -- passed through the masker built from THAT key and
+    # the payload length when masked (an empty payload needs no masker, but the frame still carries the mask bit and the key)
+    from ..core.tiny import Tiny, Sym, Buf
+    joins = [c for c in calls_in(pi.node) if isinstance(c.func, ast.Attribute) and c.func.attr == "join" and c.args and isinstance(c.args[0], ast.List) and len(c.args[0].elts) == 5]
+    ctx.require(len(joins) == 1, "PreparedMessage: frame assembly join not found")
+    prm = pi.params()
+    probs = []
+    try:
+        for apply_mask in (True, False):
+            for ln in (0, 5, 200, 70000):   # one length per branch of the length coding
+                payload = Buf(0, ln)
+                keys, maskers = [], []
+
+                def default(f_, a_, k_=None):
+                    if f_ == "random.getrandbits":
+                        return Sym("random32", bits=a_[0] if a_ else None)
+                    if f_ == "struct.pack" and len(a_) == 2 and isinstance(a_[1], Sym) and a_[1].name == "random32":
+                        kv = Sym("key-octets", of=a_[1], fmt=a_[0])
+                        keys.append(kv)
+                        return kv
+                    if f_ == "struct.pack":
+                        return Buf(900, 902)
+                    if f_ == "create_xor_masker":
+                        mk_ = Sym("masker", key=a_[0] if a_ else None, length=a_[1] if len(a_) > 1 else None,
+                                  methods={"process": lambda x: Sym("masked", of=x)})
+                        maskers.append(mk_)
+                        return mk_
+                    return Sym(f"<{f_}>")
+                env = {"self": Sym("prepared"), prm[1]: payload, prm[2]: True, prm[3]: apply_mask, prm[4]: True}
+                t = Tiny(env, default_call=default, opaque_globals=True, model_strings=True, model_types=True)
+                r = t.run([x for x in pi.node.body if not (isinstance(x, ast.Expr) and isinstance(x.value, ast.Constant))], stop=lambda st_: any(x is joins[0] for x in ast.walk(st_)))
+                cell = f"applyMask={apply_mask}, payload of {ln} octets"
+                if r[0] != "stop":
+                    probs.append(f"{cell}: frame assembly not reached ({r[0]} {str(r[1])[:40]})")
+                    continue
+                parts = [t.ev(x) for x in joins[0].args[0].elts]
+                h1 = parts[1]
+                h1v = h1[0] if isinstance(h1, bytes) and len(h1) == 1 else (h1[1] if isinstance(h1, tuple) and h1[:1] == ("octets",) else None)
+                if h1v is None:
+                    probs.append(f"{cell}: second header octet is {h1!r}")
+                    continue
+                bit = bool(h1v & 0x80)
+                keyp, pay = parts[3], parts[4]
+                if bit != apply_mask:
+                    probs.append(f"{cell}: mask bit {'set' if bit else 'clear'}")
+                elif apply_mask and not (isinstance(keyp, Sym) and keyp in keys and keyp.attrs.get("fmt") in ("!I", ">I")):
+                    probs.append(f"{cell}: masked frame carries {keyp!r} where the 4 key octets belong")
+                elif not apply_mask and not (isinstance(keyp, (Buf, bytes)) and len(keyp) == 0):
+                    probs.append(f"{cell}: unmasked frame carries key octets {keyp!r}")
+                elif apply_mask and ln > 0 and not (isinstance(pay, Sym) and pay.name == "masked" and pay.attrs.get("of") is payload and len(maskers) == 1
+                                                      and maskers[0].attrs.get("key") is keyp and maskers[0].attrs.get("length") == ln):
+                    probs.append(f"{cell}: payload part is {pay!r} (maskers built: {[(m_.attrs.get('key'), m_.attrs.get('length')) for m_ in maskers]}), expected the payload XORed with the frame's own key")
+                elif (not apply_mask or ln == 0) and pay is not payload and not (isinstance(pay, Sym) and pay.name == "masked" and pay.attrs.get("of") is payload and apply_mask):
+                    probs.append(f"{cell}: payload part is {pay!r}, expected the payload as given")
+    except AnalysisError as e:
+        raise AnalysisError(f"[C15.4-mask-policy] PreparedMessage.__init__ outside the modelled subset: {e}")
+    ctx.ob("PreparedMessage: mask bit, key and masked payload iff applyMask (also for an empty payload, in every branch of the length coding) [8 cells]", not probs, "; ".join(probs[:2]), pi.loc())
     # receiver: unmask with the frame's own key and declared length
     pd = wsp.methods["processData"]
     g, mf, res = an.get(pd)
@@ -620,16 +672,11 @@ def rule_mask_policy(ctx):
     nulls = find_assign_nodes(g, "current_frame_masker")
     ctx.ob("processData: unmasked frames use the null masker", any(norm.text(v) == "XorMaskerNull()" for n, v in nulls), "changed", pd.loc())
     # defaults
-    for q, attr, want in (("autobahn.websocket.protocol.WebSocketClientFactory.resetProtocolOptions", "maskClientFrames", True),
-                          ("autobahn.websocket.protocol.WebSocketServerFactory.resetProtocolOptions", "maskServerFrames", False),
-                          ("autobahn.websocket.protocol.WebSocketServerFactory.resetProtocolOptions", "requireMaskedClientFrames", True),
-                          ("autobahn.websocket.protocol.WebSocketClientFactory.resetProtocolOptions", "acceptMaskedServerFrames", False),
-                          ("autobahn.websocket.protocol.WebSocketClientFactory.resetProtocolOptions", "applyMask", True),
-                          ("autobahn.websocket.protocol.WebSocketServerFactory.resetProtocolOptions", "applyMask", True)):
-        f2 = ctx.program.func(q)
-        st = [s for s in walk_no_defs(f2.node) if isinstance(s, ast.Assign) and is_self_attr(s.targets[0], attr)]
-        ctx.ob(f"{q.split('.')[-2]} default {attr} = {want}", len(st) == 1 and isinstance(st[0].value, ast.Constant) and st[0].value.value is want,
-               f"default {[norm.text(s.value) for s in st]}", f2.loc())
+    from .common import rule_default_options
+    rule_default_options(ctx, None, (("WebSocketClientFactory", "maskClientFrames", True), ("WebSocketServerFactory", "maskServerFrames", False),
+                                     ("WebSocketServerFactory", "requireMaskedClientFrames", True), ("WebSocketClientFactory", "acceptMaskedServerFrames", False),
+                                     ("WebSocketClientFactory", "applyMask", True), ("WebSocketServerFactory", "applyMask", True)),
+                         "with nothing configured every client frame must be masked (and really XORed), no server frame, and the wrong masking refused")
 
 
 def run(ctx):
